@@ -8,6 +8,12 @@ Case kinds
          repetitions presented to a real ObsEqFilter over a real DSLEvaluator.
          model = PS.C20.run, spec = PS.C20.specRun, the outputs sent to the model are
          computed by the harness' own evaluator (G.denote), not by the implementation.
+  leaves: an expression over the library's REAL leaf filters (SetFilter, FunctionFilter,
+         UseAllVariablesFilter on (type request, program) pairs; LocalStatelessFilter on programs)
+         evaluated on generated programs.  Each leaf's verdict is recomputed by the harness from
+         the class's documented meaning; the combination is checked against the Boolean
+         connectives and against the Lean model of the combinators (same `c20.expr` request, the
+         object being the vector of leaf verdicts); reject = not accept for every class.
 """
 import json
 
@@ -30,6 +36,8 @@ def gen_expr(rng, depth, natoms):
 
 
 def gen(rng, i, tier):
+    if i % 5 == 4:
+        return gen_leaves(rng)
     if i % 2 == 0:
         natoms = rng.randint(1, 5)
         e = gen_expr(rng, rng.randint(1, 5), natoms)
@@ -62,6 +70,14 @@ def gen(rng, i, tier):
 
 
 def shrink(case):
+    if case["kind"] == "leaves":
+        for j in range(len(case["pool"])):
+            if len(case["pool"]) > 1 and j not in case["forbidden"]:
+                c = dict(case)
+                c["pool"] = case["pool"][:j] + case["pool"][j + 1:]
+                c["forbidden"] = [k - (k > j) for k in case["forbidden"]]
+                yield c
+        return
     if case["kind"] == "obseq":
         for j in range(len(case["seq"])):
             c = dict(case)
@@ -312,9 +328,182 @@ def check_obseq(case, M):
                        "verdicts": want[:12]}}
 
 
+# ------------------------------------------------------------------ real leaf filters
+LEAF_FAMILIES = {
+    # objects are (type request, program) pairs
+    "syn": ["useall", "fun_same_args", "fun_neg_neg", "set"],
+    # objects are programs
+    "prog": ["local_neg_neg", "local_plus_zero", "local_commut"],
+}
+
+
+def gen_leaves(rng):
+    fam = rng.choice(["syn", "syn", "prog"])
+    spec = G.DSLS["arith"]
+    nargs = rng.randint(0, 3)
+    var_types = ["int"] * nargs
+    pool = []
+    for _ in range(rng.randint(3, 10)):
+        t = G.random_term(rng, spec, var_types, "int", rng.randint(1, 4))
+        if t is not None:
+            pool.append(t)
+    # make the interesting patterns frequent: (neg (neg x)), (+ x x), (+ x 0), all variables used
+    if pool:
+        x = rng.choice(pool)
+        pool.append(("A", ("P", "neg"), [("A", ("P", "neg"), [x])]))
+        pool.append(("A", ("P", "+"), [x, x]))
+        pool.append(("A", ("P", "+"), [x, ("P", "0")]))
+    if nargs >= 2:
+        t = ("V", 0)
+        for k in range(1, nargs):
+            t = ("A", ("P", "+"), [t, ("V", k)])
+        pool.append(t)
+    names = LEAF_FAMILIES[fam]
+    e = gen_expr(rng, rng.randint(1, 4), len(names))
+    forb = [rng.randrange(len(pool)) for _ in range(rng.randint(0, 3))] if pool else []
+    return {"kind": "leaves", "family": fam, "nargs": nargs, "pool": pool, "expr": e, "forbidden": forb}
+
+
+def _deep(t):
+    return tuple(_deep(x) for x in t) if isinstance(t, (list, tuple)) else t
+
+
+def _t_subterms(t):
+    yield t
+    if t[0] == "A":
+        for a in t[2]:
+            yield from _t_subterms(a)
+
+
+def _t_vars(t):
+    return {s[1] for s in _t_subterms(t) if s[0] == "V"}
+
+
+def leaf_oracle(name, t, nargs, forbidden_terms, progs_by_term):
+    """the documented meaning of each leaf, computed on the harness' own term representation"""
+    def head(u):
+        return u[1][1] if u[0] == "A" and u[1][0] == "P" else None
+    if name == "useall":            # every variable of the type request is used, and no other
+        return _t_vars(t) == set(range(nargs))
+    if name == "fun_same_args":     # no sub-program (+ x x) / (* x x)
+        return not any(head(u) in ("+", "*") and u[2][0] == u[2][1] for u in _t_subterms(t))
+    if name == "fun_neg_neg":       # no sub-program (neg (neg x))
+        return not any(head(u) == "neg" and head(u[2][0]) == "neg" for u in _t_subterms(t))
+    if name == "set":               # the program is not one of the forbidden programs
+        return t not in forbidden_terms
+    if name == "local_neg_neg":     # only the root is looked at
+        return not (head(t) == "neg" and head(t[2][0]) == "neg")
+    if name == "local_plus_zero":
+        return not (head(t) == "+" and t[2][1] == ("P", "0"))
+    if name == "local_commut":      # commutative_rejection: keep (+ a b) only when hash(a) > hash(b)
+        if head(t) in ("+", "*"):
+            a, b = progs_by_term[t[2][0]], progs_by_term[t[2][1]]
+            return not (hash(a) <= hash(b))
+        return True
+    raise KeyError(name)
+
+
+def check_leaves(case, M):
+    from synth.filter import SetFilter, FunctionFilter, UseAllVariablesFilter, LocalStatelessFilter
+    from synth.filter.local_stateless_filter import commutative_rejection, reject_functions
+    from synth.syntax import auto_type
+    dsl, semt, spec = G.make_dsl("arith")
+    prims = G.prims_by_name(dsl)
+    nargs = case["nargs"]
+    var_types = ["int"] * nargs
+    pool = [_deep(t) for t in case["pool"]]
+    e = json.loads(json.dumps(case["expr"]))
+    fam = case["family"]
+    names = LEAF_FAMILIES[fam]
+    treq = auto_type(" -> ".join(["int"] * (nargs + 1)))
+    progs_by_term = {}
+    for t in pool:
+        for u in _t_subterms(t):
+            if u not in progs_by_term:
+                progs_by_term[u] = G.to_repo_program(u, prims, var_types)
+    forb_terms = [pool[i] for i in case["forbidden"]]
+
+    def make(name):
+        if name == "useall":
+            return UseAllVariablesFilter()
+        if name == "fun_same_args":
+            same = lambda a, b: a == b
+            return FunctionFilter({"+": same, "*": same})
+        if name == "fun_neg_neg":
+            return FunctionFilter({"neg": lambda a: reject_functions(a, "neg")})
+        if name == "set":
+            return SetFilter({progs_by_term[t] for t in forb_terms})
+        if name == "local_neg_neg":
+            return LocalStatelessFilter({"neg": lambda a: reject_functions(a, "neg", "nothing")})
+        if name == "local_plus_zero":
+            return LocalStatelessFilter({"+": lambda a, b: str(b) == "0"})
+        if name == "local_commut":
+            return LocalStatelessFilter({"+": commutative_rejection, "*": commutative_rejection})
+        raise KeyError(name)
+    leaves = [make(n) for n in names]
+
+    def build(x):
+        if x[0] == "a":
+            return leaves[x[1]]
+        if x[0] == "and":
+            return build(x[1]) & build(x[2])
+        if x[0] == "or":
+            return build(x[1]) | build(x[2])
+        return -build(x[1])
+    failures = []
+    try:
+        f = build(e)
+    except Exception as ex:  # noqa
+        failures.append({"kind": "oracle", "what": "combinator construction raises", "detail": type(ex).__name__})
+        f = None
+    n_acc = n_rej = 0
+    for t in pool:
+        if f is None:
+            break
+        p = progs_by_term[t]
+        obj = (treq, p) if fam == "syn" else p
+        verdicts = [bool(leaf_oracle(n, t, nargs, forb_terms, progs_by_term)) for n in names]
+        # every real leaf alone: accept = its documented meaning, reject = the negation
+        for n, lf, v in zip(names, leaves, verdicts):
+            try:
+                la, lr = bool(lf.accept(obj)), bool(lf.reject(obj))
+            except Exception as ex:  # noqa
+                failures.append({"kind": "oracle", "what": "a leaf filter raises", "detail": f"{n} on {G.term_str(t)}: {type(ex).__name__}"})
+                continue
+            if la != v or lr != (not v):
+                failures.append({"kind": "oracle", "what": "a leaf filter does not accept what its documentation says",
+                                 "detail": f"{n} on {G.term_str(t)} (request with {nargs} arguments): accept={la} reject={lr} expected accept={v}"})
+        want = bool(sem(e, verdicts))
+        m = M.ask([Sym("c20.expr"), wire_expr(e), verdicts])
+        macc, mrej, msem = (x == "1" for x in m)
+        if msem != want:
+            raise RuntimeError("Lean spec `sem` and harness oracle disagree")
+        try:
+            acc, rej = bool(f.accept(obj)), bool(f.reject(obj))
+        except Exception as ex:  # noqa
+            failures.append({"kind": "oracle", "what": "accept raises", "detail": type(ex).__name__})
+            break
+        if acc != want or rej != (not want):
+            failures.append({"kind": "oracle", "what": "combination of real leaf filters does not accept the Boolean combination",
+                             "detail": f"program {G.term_str(t)} leaves={dict(zip(names, verdicts))} accept={acc} reject={rej} expected accept={want}"})
+        if (acc, rej) != (macc, mrej):
+            failures.append({"kind": "corr", "what": "accept/reject bits differ from model", "detail": f"impl={(acc, rej)} model={(macc, mrej)}"})
+        n_acc += want
+        n_rej += not want
+        if len(failures) > 4:
+            break
+    tags = ["leaves", f"leaves.{fam}", f"leaves.nargs{nargs}"]
+    return {"key": "leaves:" + json.dumps([fam, nargs, e, [G.term_str(t) for t in pool], case["forbidden"]]),
+            "nontrivial": n_acc >= 1 and n_rej >= 1, "tags": tags, "failures": failures,
+            "sample": {"kind": "leaves", "family": fam, "expr": dump(wire_expr(e)), "leaves": names,
+                       "programs": [G.term_str(t) for t in pool][:8]}}
+
+
 def check(case, M):
     if case["kind"] == "expr":
         return check_expr(case, M)
+    if case["kind"] == "leaves":
+        return check_leaves(case, M)
     return check_obseq(case, M)
 
 
